@@ -11,7 +11,9 @@ Zero(txt) == [txt |-> txt, micro |-> 0, kind |-> "zero", digits |-> "", neg |-> 
 Big(txt, digits, neg) == [txt |-> txt, micro |-> 0, kind |-> "big", digits |-> digits, neg |-> neg]
 V == << Num("0", 0), Num("-0.0", 0), Num("0.004", 4000), Num("0.005", 5000), Num("0.015", 15000), Num("0.0000001", 0),
         Num("12.345", 12345000), Num("-3.25", 0 - 3250000), Num("100", 100000000), Num("1999.999", 1999999000), Num("-1999.5", 0 - 1999500000),
-        Zero("NaN"), Zero("inf"), Zero("-inf"), Big("1000000000000000", "1000000000000000", FALSE), Big("-123456789012", "123456789012", TRUE) >>
+        Zero("NaN"), Zero("inf"), Zero("-inf"), Big("1000000000000000", "1000000000000000", FALSE), Big("-123456789012", "123456789012", TRUE),
+        \* integral values beyond the 64-bit integers, exactly representable as doubles: 10^19 and -2^100 (a font size is printed without a fraction)
+        Big("10000000000000000000", "10000000000000000000", FALSE), Big("-1267650600228229401496703205376", "1267650600228229401496703205376", TRUE) >>
 NV == Len(V)
 Rot(k, n) == [x \in 1..n |-> V[((k + x - 2) % NV) + 1]]         \* n operands starting at class k
 Unit == << Num("0", 0), Num("0.25", 250000), Num("0.3333", 333300), Num("1", 1000000), Zero("NaN"), Num("0.0004", 400), Num("0.9996", 999600) >>
